@@ -4,7 +4,7 @@ Each statement is printed by Coq itself (Check), so the file repeats every state
 Run from /verif/coq after the development has been compiled:  python3 ../tools/mkprops.py [Cxx ...]"""
 import subprocess, sys, re, os
 
-IMP = "Model Sem InvDb InvSwap InvMint InvMelt Corollaries Queries Footprint HRel Global GlobalQuote GlobalValue GlobalErr GlobalQuery GlobalMelt GlobalKeys Cuts CutOrder Conc Races GlobalBalance GlobalLedger Reconf Trace Admin AdminProofs"
+IMP = "Model Sem InvDb InvSwap InvMint InvMelt Corollaries Queries Footprint HRel Global GlobalQuote GlobalValue GlobalErr GlobalQuery GlobalMelt GlobalKeys Cuts CutOrder Conc Races GlobalBalance GlobalLedger Reconf GlobalPoll Trace Admin AdminProofs"
 
 GLOSSARY = """   Reading guide (definitions in coq/Mint/*.v):
      world            = store (tables spent/pending/signatures/mint quotes/melt quotes/keysets) + Lightning environment
@@ -38,7 +38,7 @@ PROPS = {
  'C04': ("Only genuine mint signatures are honoured, at exactly their signed amount", [
    'check_proof_iff', 'check_proofs_forall', 'swap_accepts_only_genuine']),
  'C05': ("Melt inputs follow the Lightning outcome: spent iff paid, released iff failed", [
-   'ambiguous_backend_never_resolves', 'poll_spec', 'melt_tokens_spec', 'poll_ambiguous_noop', 'poll_good', 'melt_good']),
+   'polls_only_adopt_definitive_answers', 'pending_quote_waits_for_a_poll', 'poll_outcomes', 'ambiguous_backend_never_resolves', 'poll_spec', 'melt_tokens_spec', 'poll_ambiguous_noop', 'poll_good', 'melt_good']),
  'C06': ("Rejected or malformed requests change nothing and never crash a handler", [
    'refusal_changes_nothing', 'request_never_panics', 'request_run_never_panics', 'check_never_refused', 'swap_atomic']),
  'C07': ("Mint crash consistency: a crash at any point never inflates or strands value", [
